@@ -92,16 +92,34 @@ class ParserModel:
                     self.kind_regex.setdefault(kind, []).extend(rnames)
         tail = body[-1]
         self.expr_handler = tail if isinstance(tail, ast.Try) else None
-        if self.expr_handler is None:
-            raise Unrecognised(self.rule, 'the trailing expression-statement handler (try: ... parse_expression(line)) was not found', self.mod.rel)
-        if len(self.handlers) < 15:
-            raise Unrecognised(self.rule, f'only {len(self.handlers)} regex-selected handlers recognised in the line loop', self.mod.rel)
+        # statement regexes that no `NAME = R.match(line); if NAME:` handler names (table-driven dispatch, helpers): classified from the regex table itself.
+        # Which regex matches a line is what the abstract lines encode; the code that consumes the match is evaluated, not recognised.
+        used = {n.func.value.id for n in ast.walk(self.func) if isinstance(n, ast.Call) and isinstance(n.func, ast.Attribute) and isinstance(n.func.value, ast.Name)
+                and n.func.value.id in self.regexes}
+        for fn in self.mod.funcs.values():
+            if fn is not self.func:
+                used |= {n.id for n in ast.walk(fn) if isinstance(n, ast.Name) and n.id in self.regexes}
+        used |= {n.id for vals in self.mod.assigns.values() for v in vals for n in ast.walk(v) if isinstance(n, ast.Name) and n.id in self.regexes}
+        known = {r for _k, rs, _n in self.handlers for r in rs}
+        for rn in self.regexes:
+            if rn in known or not rn.startswith('_R_SCRIPT'):
+                continue
+            try:
+                kinds = self.classify_regex(rn)
+            except Unrecognised:
+                continue
+            if len(kinds) == 1:
+                kind = next(iter(kinds))
+                if rn not in self.kind_regex.get(kind, []):
+                    self.kind_regex.setdefault(kind, []).append(rn)
+        if len(self.kind_regex) < 15:
+            raise Unrecognised(self.rule, f'only {len(self.kind_regex)} statement kinds identified from the regex table', self.mod.rel)
         # comment / continuation / split regexes
         self.comment_regex = self.cont_regex = None
         for n in ast.walk(self.loop):
             if isinstance(n, ast.Call) and isinstance(n.func, ast.Attribute) and isinstance(n.func.value, ast.Name) and n.func.value.id in self.regexes:
                 rn = n.func.value.id
-                if n.func.attr == 'match' and rn not in [r for _k, rs, _n in self.handlers for r in rs]:
+                if n.func.attr == 'match' and rn not in [r for rs in self.kind_regex.values() for r in rs]:
                     self.comment_regex = rn
                 elif n.func.attr == 'sub' and n.args and norm(n.args[-1]) != self.line_var and 'line' in norm(n.args[-1]):
                     self.cont_regex = self.cont_regex or rn
